@@ -123,3 +123,79 @@ Section Radicands.
     | _, _ => 0
     end.
 End Radicands.
+
+(** *** coefficient-list model (polynomial structure of the table).
+    Polynomials in x are coefficient lists, lowest degree first.  [PolyOps] makes them a carrier,
+    so that the GENERATED update expression [leg_step] and radicand [leg_y2] are run verbatim on
+    coefficient lists (the same recurrence, now independent of any node):
+      p[m, i, l] = y_i^m * peval (leg_q m l) (x_i)          (Thm/LegendrePoly.v)
+    Division, inverse, order on lists are dummies: the recurrence step and 1 - x*x use none. *)
+Section LegendrePoly.
+  Context {F : Type} {o : Ops F}.
+
+  Fixpoint padd (p q : list F) : list F :=
+    match p, q with
+    | [], _ => q
+    | _, [] => p
+    | a :: p', b :: q' => (a + b) :: padd p' q'
+    end.
+  Definition pscale (c : F) (p : list F) : list F := map (fun a => c * a) p.
+  Definition popp (p : list F) : list F := map (fun a => - a) p.
+  Definition psub (p q : list F) : list F := padd p (popp q).
+  Definition pmulx (p : list F) : list F := 0 :: p.
+  Fixpoint pmul (p q : list F) : list F :=
+    match p with [] => [] | a :: p' => padd (pscale a q) (pmulx (pmul p' q)) end.
+  Fixpoint peval (p : list F) (t : F) : F :=
+    match p with [] => 0 | a :: p' => a + t * peval p' t end.
+  Definition pconst (c : F) : list F := [c].
+  Definition pX : list F := [0; 1].
+
+  Definition PolyOps : Ops (list F) := {|
+    f0 := []; f1 := pconst 1;
+    fadd := padd; fmul := pmul; fsub := psub; fopp := popp;
+    fdiv := fun _ _ => []; finv := fun _ => [];
+    fofZ := fun z => pconst (fofZ z);
+    fleb := fun _ _ => false; feqb := fun _ _ => false |}.
+
+  Fixpoint ppow (p : list F) (n : nat) : list F :=
+    match n with O => pconst 1 | S k => pmul p (ppow p k) end.
+  Fixpoint lpow (t : F) (n : nat) : F := match n with O => 1 | S k => t * lpow t k end.
+
+  (** formal derivative d/dx on coefficient lists *)
+  Fixpoint pderiv_from (n : nat) (p : list F) : list F :=
+    match p with [] => [] | a :: p' => (llit n * a) :: pderiv_from (S n) p' end.
+  Definition pderiv (p : list F) : list F := match p with [] => [] | _ :: p' => pderiv_from 1 p' end.
+
+  Variable sq : F -> F.
+
+  (** p[0, m] = leg_cdiag m * y^m: the diagonal recurrence with y := 1 *)
+  Fixpoint leg_cdiag (m : nat) : F :=
+    match m with
+    | O => leg_init sq 0
+    | S m' => leg_diag_step sq (llit (S m')) 1 (leg_cdiag m')
+    end.
+
+  (** the three-term recurrence on coefficient lists: (q_{m,m+k}, q_{m,m+k-1}) *)
+  Fixpoint leg_qs (m k : nat) : list F * list F :=
+    match k with
+    | O => (pconst (leg_cdiag m), [])
+    | S k' => let pr := leg_qs m k' in
+              (@leg_step (list F) PolyOps (pconst (sq (rad_a (llit m) (llit (S k')))))
+                         (pconst (sq (rad_b (llit m) (llit (S k'))))) pX (fst pr) (snd pr), fst pr)
+    end.
+  (** q_{m,l}: p[m, i, l] = y_i^m * peval (leg_q m l) (x_i), degree <= l - m *)
+  Definition leg_q (m l : nat) : list F := fst (leg_qs m (l - m)).
+
+  (** the Gram integrand p[m,i,l] p[m,i,l'] as ONE polynomial in x: (1 - x^2)^m q_{m,l} q_{m,l'} *)
+  Definition leg_gram_poly (m l l' : nat) : list F :=
+    pmul (ppow (@leg_y2 (list F) PolyOps pX) m) (pmul (leg_q m l) (leg_q m l')).
+
+  (** a linear functional on polynomials given by its moments mom n = Int(x^n) *)
+  Fixpoint pint_from (mom : nat -> F) (s : nat) (p : list F) : F :=
+    match p with [] => 0 | a :: p' => a * mom s + pint_from mom (S s) p' end.
+  Definition pint (mom : nat -> F) (p : list F) : F := pint_from mom 0 p.
+
+  (** D = (1 - x^2) d/dx on y^m q(x) is y^m (leg_y2(x) q' - m x q) *)
+  Definition leg_Dm (m : nat) (q : list F) : list F :=
+    psub (pmul (@leg_y2 (list F) PolyOps pX) (pderiv q)) (pscale (llit m) (pmul pX q)).
+End LegendrePoly.
